@@ -68,8 +68,16 @@ def main():
         shutil.rmtree("/tmp/uxverif-regress-scratch", ignore_errors=True)
     head = sh(["git", "-C", "/repo", "log", "--format=%h", "-1"])[1].strip()
     summary = {"repo_head": head, "seed": int(seed), "n": len(results), "caught": sum(1 for r in results.values() if r.get("caught")), "results": results}
-    if not only:
-        json.dump(summary, open(os.path.join(V, "seeded", "REGRESSION.json"), "w"), indent=1)
+    out = os.path.join(V, "seeded", "REGRESSION.json")
+    if only and os.path.exists(out):
+        # merge a partial re-run into the existing record
+        prev = json.load(open(out))
+        prev["results"].update(results)
+        prev["n"] = len(prev["results"])
+        prev["caught"] = sum(1 for r in prev["results"].values() if r.get("caught"))
+        prev.setdefault("partial_reruns", []).append({"only": only, "repo_head": head})
+        summary = prev
+    json.dump(summary, open(out, "w"), indent=1)
     print(f"{summary['caught']} of {summary['n']} caught")
 
 
